@@ -167,3 +167,94 @@ func H05_last_words() {
 	vrtWitnessRound("after_last_words", pub, s1, s2, 1, 0, 6)
 	vrtReach("C05.survived_last_words")
 }
+
+// H05_truncated_connect: every length-consistent truncation of a full CONNECT
+// (will, user name and password present; protocol level 4 or 3) as the first
+// packet of a connection: the fixed header announces exactly the bytes that
+// follow, and they end in the middle of the variable header or payload. The
+// broker must survive (the CONNECT is decoded in a goroutine without a panic
+// guard), close at most that connection and keep serving the witnesses.
+func H05_truncated_connect() {
+	b := vrtBroker("mockSuccess")
+	s1, _ := b.connect(vrtConnectPkt([]byte("s1"), true))
+	s2, _ := b.connect(vrtConnectPkt([]byte("s2"), true))
+	vrtExchange(s1, &specPkt{Typ: specSUBSCRIBE, ID: 1, Topics: [][]byte{[]byte("w")}, QoS: []byte{1}})
+	vrtExchange(s2, &specPkt{Typ: specSUBSCRIBE, ID: 1, Topics: [][]byte{[]byte("w")}, QoS: []byte{0}})
+	s1.peerTake()
+	s2.peerTake()
+	pub, _ := b.connect(vrtConnectPkt([]byte("p"), true))
+	full := &specPkt{Typ: specCONNECT, Proto: []byte("MQTT"), Level: 4, CFlags: 0xC6, KeepAlive: 60,
+		ClientID: []byte("o"), WillTopic: []byte("g"), WillMsg: []byte("x"), User: []byte("u"), Pass: []byte("p")}
+	if vrtBool("v3") {
+		full.Proto, full.Level = []byte("MQIsdp"), 3
+	}
+	body := specEncode(full)[2:]
+	cut := vrtChoice("cut", len(body)) // 0 .. len-1 bytes of the body
+	data := append([]byte{0x10, byte(cut)}, body[:cut]...)
+	o := b.open()
+	o.peerSend(data)
+	vrtQuiesce()
+	o.peerTake()
+	if !o.isClosed() {
+		o.peerClose()
+		vrtQuiesce()
+	}
+	vrtAssert("C05.preconnect_closed", o.isClosed())
+	vrtWitnessRound("after_truncated_connect", pub, s1, s2, 1, 0, 4)
+	vrtReach("C05.survived_truncated_connect")
+}
+
+// H05s_stalled_cut: the offender stops reading until its outbound ring is full
+// and a witness publisher's delivery to it blocks; then it is cut. The
+// publisher's connection must come back to life: the other subscriber
+// receives every message, intact and in order, and the publisher is answered.
+func H05s_stalled_cut() {
+	b := vrtBroker("mockSuccess")
+	var o, s1 *vrtConn
+	if vrtBool("offender_subscribes_first") {
+		o, _ = b.connect(vrtConnectPkt([]byte("o"), true))
+		vrtExchange(o, &specPkt{Typ: specSUBSCRIBE, ID: 1, Topics: [][]byte{[]byte("w")}, QoS: []byte{0}})
+		s1, _ = b.connect(vrtConnectPkt([]byte("s1"), true))
+		vrtExchange(s1, &specPkt{Typ: specSUBSCRIBE, ID: 1, Topics: [][]byte{[]byte("w")}, QoS: []byte{0}})
+	} else {
+		s1, _ = b.connect(vrtConnectPkt([]byte("s1"), true))
+		vrtExchange(s1, &specPkt{Typ: specSUBSCRIBE, ID: 1, Topics: [][]byte{[]byte("w")}, QoS: []byte{0}})
+		o, _ = b.connect(vrtConnectPkt([]byte("o"), true))
+		vrtExchange(o, &specPkt{Typ: specSUBSCRIBE, ID: 1, Topics: [][]byte{[]byte("w")}, QoS: []byte{0}})
+	}
+	pub, _ := b.connect(vrtConnectPkt([]byte("p"), true))
+	o.peerTake()
+	s1.peerTake()
+	o.peerStall(100)
+	const n = 4
+	for i := 0; i < n; i++ {
+		pub.peerSend(specEncode(vrtBigPublish("w", byte(i))))
+	}
+	pub.peerSend(specEncode(&specPkt{Typ: specPINGREQ}))
+	vrtQuiesce()
+	vrtAssert("C05.harness_publisher_held_up", len(pub.peerTake()) == 0) // (the PINGREQ is queued behind the blocked delivery)
+	switch vrtChoice("cut", 3) {
+	case 0:
+		o.peerClose()
+	case 1:
+		o.peerExpireDeadline() // keep-alive expiry of the dead client
+	case 2:
+		o.peerSend([]byte{0x00, 0x00}) // (not even read: its processor may be blocked too)
+		o.peerClose()
+	}
+	vrtQuiesce()
+	vrtAssert("C05.offender_torn_down", o.isClosed())
+	got, ok := vrtParse(s1.peerTake())
+	vrtAssert("C05.witness_stream_wellformed.stalled_cut", ok)
+	vrtAssert("C05.witness_gets_every_message", len(got) == n)
+	for i := 0; i < len(got) && i < n; i++ {
+		good := len(got[i].Payload) == vrtBig
+		if good {
+			good = got[i].Payload[0] == byte(i) && got[i].Payload[vrtBig-1] == byte(i)
+		}
+		vrtAssert("C05.witness_content.stalled_cut", good)
+	}
+	vrtAssert("C05.publisher_answered_after_cut", vrtBytesEq(pub.peerTake(), []byte{0xD0, 0}))
+	vrtAssert("C05.publisher_stays_connected.stalled_cut", !pub.isClosed())
+	vrtReach("C05.survived_stalled_cut")
+}
